@@ -54,6 +54,35 @@ func (g *gen) laneReal() {
 	g.timed("realTruncation", g.realTruncation)
 	g.timed("realInterleave", g.realInterleave)
 	g.timed("realServerOptions", g.realServerOptions)
+	g.timed("realEncodings", g.realEncodings)
+}
+
+// realEncodings: per-frame base64 grpc-web-text bodies and gzip streams that
+// follow a call which failed in decompression, over sockets.
+func (g *gen) realEncodings() {
+	r := g.r
+	tc := tcombo{"grpc-web-text", "proto", ""}
+	for _, lane := range []string{"h1", "h1-chunked", "h2c"} {
+		for si, kinds := range [][]string{{"T", "T", "E"}, {"D40", "T", "X", "D9", "E"}} {
+			c := &Case{Lane: lane, T: tc.T, Codec: tc.Codec, Shape: "cs", Trunc: -1, Sched: "base64-per-frame"}
+			c.Msgs = g.msgs(kinds, tc, 0)
+			c.Reply = [][]byte{g.reply(len(kinds))}
+			build(c, bodyOpt{b64: "per-frame"})
+			if lane != "h1" && si == 1 {
+				c.Cuts = g.randomCuts(len(c.Body))
+			}
+			g.runReal(c)
+		}
+	}
+	for round := 0; round < r.Pick(2, 10); round++ {
+		for _, lane := range []string{"grpc-go", "h2c"} {
+			gz := tcombo{"grpc", "gzip", ""}
+			c := &Case{Lane: lane, T: "grpc", Codec: "gzip", Shape: "bidi", Echo: true, Step: true, Trunc: -1, Poison: true, Sched: "lockstep"}
+			c.Msgs = g.msgs([]string{"T", "E", "X", "T", "D9", "T"}, gz, 0)
+			build(c, bodyOpt{})
+			g.runReal(c)
+		}
+	}
 }
 
 // runParallel executes socket cases at the same time (used for paced
